@@ -22,9 +22,9 @@ PROPS = {
     "C06": dict(modules=["Cvss.Props.C06", "Cvss.Props.GenParsers", "Cvss.Props.ParseTie", "Cvss.Props.C06v2", "Cvss.Props.C06v3", "Cvss.Props.C06v4"], ties=["Cvss.Props.ParseTie"], streams=["parse"]),
     "C07": dict(modules=["Cvss.Props.C07", "Cvss.Props.C07v4"], ties=[], streams=["obj"]),
     "C08": dict(modules=["Cvss.Props.C08", "Cvss.Props.GenParsers", "Cvss.Props.ParseTie", "Cvss.Props.C08v2", "Cvss.Props.C08v3", "Cvss.Props.C08v4"], ties=["Cvss.Props.ParseTie"], streams=["parse", "obj"]),
-    "C09": dict(modules=["Cvss.Props.C09", "Cvss.Props.C09v4", "Cvss.Props.C09b", "Cvss.Props.NoPanic20", "Cvss.Props.NoPanic30", "Cvss.Props.NoPanic31"], ties=[], streams=["obj", "parse"]),
+    "C09": dict(modules=["Cvss.Props.C09", "Cvss.Props.C09v4", "Cvss.Props.C09b", "Cvss.Props.NoPanic20", "Cvss.Props.NoPanic30", "Cvss.Props.NoPanic31", "Cvss.Props.NoPanic40"], ties=[], streams=["obj", "parse", "score:F"]),
     "C10": dict(modules=["Cvss.Props.C10"], ties=[], streams=["score:K"]),
-    "C11": dict(modules=["Cvss.Props.IEEE", "Cvss.Props.F64Facts", "Cvss.Props.C11v2", "Cvss.Props.C11v3", "Cvss.Props.C11v4", "Cvss.Props.NoPanic20", "Cvss.Props.NoPanic30", "Cvss.Props.NoPanic31"], ties=[], streams=["score:F"]),
+    "C11": dict(modules=["Cvss.Props.IEEE", "Cvss.Props.F64Facts", "Cvss.Props.C11v2", "Cvss.Props.C11v3", "Cvss.Props.C11v4", "Cvss.Props.NoPanic20", "Cvss.Props.NoPanic30", "Cvss.Props.NoPanic31", "Cvss.Props.NoPanic40"], ties=[], streams=["score:F"]),
     "C12": dict(modules=["Cvss.Props.C12v2", "Cvss.Props.C12v3", "Cvss.Props.C12v4", "Cvss.Proofs.Score3MonoA_0", "Cvss.Proofs.Score3MonoA_1", "Cvss.Proofs.Score3MonoA_2", "Cvss.Proofs.Score3MonoA_3", "Cvss.Proofs.Score3MonoBT", "Cvss.Proofs.Score3MonoB_0", "Cvss.Proofs.Score3MonoB_1", "Cvss.Proofs.Score3MonoB_2", "Cvss.Proofs.Score3MonoDefs", "Cvss.Proofs.Score3MonoObj", "Cvss.Proofs.Score3MonoSpec", "Cvss.Proofs.Score3MonoStr", "Cvss.Proofs.Mono4All", "Cvss.Proofs.Mono4Bound", "Cvss.Proofs.Mono4Bridge0", "Cvss.Proofs.Mono4Bridge1", "Cvss.Proofs.Mono4Bridge2", "Cvss.Proofs.Mono4Bridge3", "Cvss.Proofs.Mono4Bridge4", "Cvss.Proofs.Mono4Bridge5", "Cvss.Proofs.Mono4BridgeDef", "Cvss.Proofs.Mono4Cover", "Cvss.Proofs.Mono4Cover36", "Cvss.Proofs.Mono4Cover36H", "Cvss.Proofs.Mono4Cover36L", "Cvss.Proofs.Mono4Cover36N", "Cvss.Proofs.Mono4Eff", "Cvss.Proofs.Mono4Lists", "Cvss.Proofs.Mono4P", "Cvss.Proofs.Mono4Pack", "Cvss.Proofs.Mono4Raw", "Cvss.Proofs.Mono4Tab1", "Cvss.Proofs.Mono4Tab2", "Cvss.Proofs.Mono4Tab36", "Cvss.Proofs.Mono4Tab4", "Cvss.Proofs.Mono4Tab5"], ties=[], streams=["score:M"]),
     "C13": dict(modules=["Cvss.Props.C13", "Cvss.Props.GenParsers", "Cvss.Props.ParseTie", "Cvss.Props.C13b", "Cvss.Props.C13v2", "Cvss.Props.C13v3", "Cvss.Props.C13v4"], ties=["Cvss.Props.ParseTie"], streams=["parse"]),
     "C14": dict(modules=["Cvss.Props.C14", "Cvss.Props.C14b"], ties=["Cvss.Props.ParseTie"], streams=["race", "hist", "obj"]),
@@ -133,7 +133,7 @@ LEVEL_TEXT["C16"] = _lt("proof",
     "trusted: Lean kernel; translator for Nomenclature/Get (validated by the obj stream); Spec group tables", _TECH)
 LEVEL_TEXT["C18"] = _lt("proof",
     "Theorems C18.v30/v31/v40: for every grammatical vector, every defect of Spec/Errors.lean (bad/missing header, illegal value, removed mandatory metric, repeated, unknown, "
-    "swapped, moved to any other position, truncated) at every position, the parser model returns exactly the documented error value incl. the Abv payload; header30/31/40(_iff): for EVERY byte string the error is ErrInvalidCVSSHeader iff the version prefix is missing; getset_errors*: unknown abbreviation / "
+    "swapped, moved to any other position, truncated) at every position, the parser model returns exactly the documented error value incl. the Abv payload; header30/31/40(_iff, _spec): for EVERY byte string the error is ErrInvalidCVSSHeader iff the part before the first '/' is not the version's header (v3: iff the string does not begin with CVSS:3.x/; v4.0: iff it is neither the bare CVSS:4.0 nor begins with CVSS:4.0/ - header followed by junk is a header error, holds only with the fix: commit of finding F4); getset_errors*: unknown abbreviation / "
     "illegal value for Get/Set. v2.0: the full statement is FALSE on the unchanged code (known finding F3, negation proved in Findings/C18v2.lean and reproduced on the real "
     "code); v20_partial proves every case except an insertion after a complete environmental group, and v2_errors_afterEnv characterises the finding exactly.",
     _PARSER_NOTE, _TECH)
